@@ -93,9 +93,10 @@ func H_C20_j2x() {
 			vAssert(vDeepEq(got[i], want[i]), "j2x: JsonValuesForKeyPath equals Map.ValuesForPath")
 		}
 	case 8:
-		got, err := JsonUpdateValsForPath(j, key+":N", "r."+key)
+		up := []string{"r.", "nope.", "r.c."}[vChoose(3)] + key
+		got, err := JsonUpdateValsForPath(j, key+":N", up)
 		c2, _ := NewMapJson(j)
-		c2.UpdateValuesForPath(key+":N", "r."+key)
+		c2.UpdateValuesForPath(key+":N", up)
 		want, _ := c2.Json()
 		vAssert(err == nil && string(got) == string(want), "j2x: JsonUpdateValsForPath equals UpdateValuesForPath then Json")
 	case 9:
